@@ -21,12 +21,12 @@ import (
 
 type kase struct {
 	name     string
-	client   string        // single | cluster | redirect
+	client   string        // single | cluster | redirect | sentinel
 	queue    string        // ring | flowbuffer
 	lifetime time.Duration // ConnLifetime
 	fault    string
-	shape    string // do | multi3 | tx0 | tx1
-	pos      int    // index (among the write commands) that carries the fault
+	shape    string // do | multi3 | tx0 | tx1 | mix:<pattern> (see mix_test.go)
+	pos      int    // index (among the write commands; mix: among all commands of the batch) that carries the fault
 	delay    time.Duration
 	always   bool // AlwaysPipelining
 }
@@ -51,6 +51,12 @@ func runCase(run *mon.Run, k kase) {
 		srv = fakeredis.New(fakeredis.Options{}, addrs[0], addrs[1])
 		opt = drv.Option(srv, addrs[0])
 		opt.Standalone.EnableRedirect = true
+	case "sentinel":
+		srv = fakeredis.New(fakeredis.Options{}, addrs[0])
+		srv.AddNode(addrs[1], "slave", srv.Node(addrs[0]))
+		srv.AddNode(addrs[2], "sentinel", nil).ConfigureSentinel("mymaster", addrs[0], []fakeredis.SentinelReplica{{Addr: addrs[1]}}, nil)
+		opt = drv.Option(srv, addrs[2])
+		opt.Sentinel.MasterSet = "mymaster"
 	default:
 		srv = fakeredis.New(fakeredis.Options{}, addrs[0])
 		opt = drv.Option(srv, addrs[0])
@@ -73,7 +79,18 @@ func runCase(run *mon.Run, k kase) {
 	write := func(i int) rueidis.Completed {
 		return client.B().Arbitrary("VERIF.WRITE").Keys(tag+"k").Args(uids[i], "str").Build()
 	}
-	target := uids[k.pos]
+	mix := mixOf(k) // nil unless the shape is a mixed batch
+	var mixCmds rueidis.Commands
+	if mix != nil {
+		// the judged uids are the plain writes of the batch; read-only and retryable-marked commands may be re-sent
+		uids, mixCmds = mix.build(client, tag+"k")
+	}
+	var target string
+	if mix != nil {
+		target = mix.uids[k.pos]
+	} else {
+		target = uids[k.pos]
+	}
 	match := fakeredis.MatchArg(target)
 	redirects := 0
 	other := addrs[1]
@@ -110,6 +127,8 @@ func runCase(run *mon.Run, k kase) {
 		cmds = rueidis.Commands{client.B().Multi().Build(), write(0), write(1), client.B().Exec().Build(), write(2)}
 	case "tx1":
 		cmds = rueidis.Commands{write(0), client.B().Multi().Build(), write(1), write(2), client.B().Exec().Build()}
+	default:
+		cmds = mixCmds
 	}
 	done := make(chan struct{})
 	var errs []string
@@ -137,13 +156,17 @@ func runCase(run *mon.Run, k kase) {
 	}
 	synctest.Wait()
 	execs := map[string]int{}
-	for _, ev := range srv.Log() {
+	log := srv.Log()
+	for _, ev := range log {
 		if os.Getenv("VERIF_DEBUG") != "" {
 			fmt.Println("LOG", ev.Seq, ev.Conn, ev.Kind, ev.Argv, ev.Note)
 		}
 		if ev.Kind == "exec" && len(ev.Argv) > 2 && ev.Argv[0] == "VERIF.WRITE" {
 			execs[ev.Argv[2]]++
 		}
+	}
+	if mix != nil {
+		mix.observe(run, k, log, execs)
 	}
 	nontrivial := false
 	for i, uid := range uids {
@@ -154,7 +177,11 @@ func runCase(run *mon.Run, k kase) {
 		}
 		_ = i
 		if n > allowed {
-			run.Violation("executed-more-than-once", fmt.Sprintf("%s|%s|%s|lifetime=%v|pipelined=%v", k.client, k.fault, k.shape, k.lifetime > 0, k.always), map[string]any{"case": k.String(), "uid": uid, "executions": n,
+			shape := k.shape
+			if mix != nil {
+				shape += "|fault-on=" + mix.faultOn(k.pos)
+			}
+			run.Violation("executed-more-than-once", fmt.Sprintf("%s|%s|%s|lifetime=%v|pipelined=%v", k.client, k.fault, shape, k.lifetime > 0, k.always), map[string]any{"case": k.String(), "uid": uid, "executions": n,
 				"redirect_replies": redirects, "call_errors": errs})
 		}
 		if n > 0 {
@@ -182,7 +209,7 @@ func cases(run *mon.Run) []kase {
 	if !run.Quick() {
 		delays = append(delays, 1100*time.Millisecond, 1600*time.Millisecond, 10*time.Second)
 	}
-	for _, cl := range []string{"single", "cluster", "redirect"} {
+	for _, cl := range []string{"single", "cluster", "redirect", "sentinel"} {
 		for _, q := range []string{"flowbuffer", "ring"} {
 			for _, lt := range []time.Duration{0, 500 * time.Millisecond} {
 				fs := append([]string{}, faults...)
@@ -193,20 +220,36 @@ func cases(run *mon.Run) []kase {
 					fs = append(fs, "redirect")
 				}
 				for _, f := range fs {
-					for _, sh := range []string{"do", "multi3", "tx0", "tx1"} {
+					shapes := []string{"do", "multi3", "tx0", "tx1"}
+					if cl == "sentinel" {
+						shapes = []string{"do", "multi3"}
+					}
+					if f != "redirect" { // a REDIRECT inside a batch is the listed finding C03-K1 whatever the batch is made of
+						shapes = append(shapes, mixShapes(run)...)
+					}
+					for _, sh := range shapes {
 						positions := []int{0, 1, 2}
 						if sh == "do" {
 							positions = []int{0}
+						}
+						if strings.HasPrefix(sh, "mix:") {
+							positions = positions[:len(sh)-len("mix:")]
 						}
 						for _, p := range positions {
 							ds := []time.Duration{0}
 							if strings.HasPrefix(f, "slow") {
 								ds = delays
+								if strings.HasPrefix(sh, "mix:") && run.Quick() {
+									ds = delays[1:2]
+								}
 							}
 							for _, d := range ds {
 								for _, al := range []bool{false, true} {
 									if run.Quick() && !al && q == "ring" && lt == 0 {
 										continue // quick tier: the sync path without lifetime is covered on the flowbuffer half
+									}
+									if run.Quick() && strings.HasPrefix(sh, "mix:") && ((!al && q == "ring") || f == "none") {
+										continue // quick tier, mixed batches: the sync path on the flowbuffer half only, no fault-free runs
 									}
 									add(kase{client: cl, queue: q, lifetime: lt, fault: f, shape: sh, pos: p, delay: d, always: al})
 								}
@@ -223,8 +266,8 @@ func cases(run *mon.Run) []kase {
 // C03: non-retryable commands are executed at most once per call.
 func TestC03(t *testing.T) {
 	run := mon.Start(t, "C03", "fault_enumeration",
-		"client {single, cluster (3 primaries), standalone with EnableRedirect} x queue {ring, flowbuffer} x ConnLifetime {off, 500 ms} x fault on one command {none, close before exec, close after exec, reply cut after 1 byte, silent after exec, reply slower than lifetime+grace, slow exec, MOVED, ASK, REDIRECT} "+
-			"x batch shape {Do, DoMulti of 3, MULTI/EXEC block at index 0, at index 1} x faulty position, each in a synctest bubble over 40 virtual seconds; oracle: every VERIF.WRITE uid is executed by the servers at most once (redirect replies are injected without executing); a case is non-trivial when something was executed. "+
+		"client {single, cluster (3 primaries), standalone with EnableRedirect, sentinel (1 primary, 1 replica, 1 sentinel)} x queue {ring, flowbuffer} x ConnLifetime {off, 500 ms} x fault on one command {none, close before exec, close after exec, reply cut after 1 byte, silent after exec, reply slower than lifetime+grace, slow exec, MOVED, ASK, REDIRECT} "+
+			"x batch shape {Do, DoMulti of 3, MULTI/EXEC block at index 0, at index 1, mixed DoMulti batches of plain writes W / read-only commands R / retryable-marked writes Y such as WR, RW, WRW, WYR with the fault on any one command (sentinel client: Do, DoMulti of 3 and the mixed batches)} x faulty position, each in a synctest bubble over 40 virtual seconds; oracle: every VERIF.WRITE uid that is not marked retryable is executed by the servers at most once (redirect replies are injected without executing); a case is non-trivial when something was executed. "+
 			"Second family (abandon): client x queue x {cancel, deadline} x {writer blocked in Flush by an earlier call, not} x given-up call shape {Do, DoMulti of 2, of 3, MULTI/EXEC} x successors {same shape, DoMulti of 4, Do, two batches} "+
 			"with seeded AlwaysPipelining / ConnLifetime / blocker on the sync or pipelined path / successors from the same or a fresh goroutine / release by resume or connection kill / cluster batches spread over a second node: "+
 			"a node sits on a blocker command and stops reading, a call is given up by its context while its commands are still unread, further calls queue behind it, then the server catches up; same oracle over the uids of all calls")
@@ -265,6 +308,9 @@ func TestC03(t *testing.T) {
 		}
 	}
 	run.Require("execs_1", "execs_0")
+	// mixed batches must really have been cut in the middle: a plain write executed, then a connection fault on a command
+	// of the same batch that the client is allowed to re-send - and the client must have been seen using that licence
+	run.Require("mix_connection_fault_on_resendable_command_after_plain_write_executed_pipelined", "mix_failed_resendable_command_sent_again")
 	// the second family must really have produced its situation: a call given up before the server had read any of its
 	// commands, successors queued behind it, and the server then catching up with all of them
 	run.Require("abandon_given_up_unread_call_then_successors_drained", "abandon_given_up_unread_cluster_batch_then_successors_drained")
